@@ -13,6 +13,9 @@ import RxModel.Props.C02
 import RxModel.Props.C05
 import RxModel.Props.C06
 import RxModel.Props.Findings
+import RxModel.Props.Clean
+import RxModel.Props.C11b
+import RxModel.Proofs.PreLemmas
 import Std.Data.HashMap
 namespace Rx.Driver
 open Rx
@@ -182,7 +185,10 @@ def wfReport (pr : Prog) (len : Nat) : String :=
   let facts : Bool := (match pr.prefix_ with | some pre => decide (pre.length ≤ pr.minLen) || decide (pr.minLen = usizeMax) | none => true) &&
                       pr.pres.all (fun q => !hasBackref q.op)
   s!"WF:wf={b (wfOp pr.op)},caps={b (C02.capsPos pr.op)},small={b (C06.smallMin len pr.op)},pre={b (pr.pres.all (fun q => C06.simplePre q.op))}," ++
-  s!"facts={b facts},br={b (!hasBackref pr.op || pr.hasBackrefs)},prewf={b (pr.pres.all (fun q => wfOp q.op))}"
+  s!"facts={b facts},br={b (!hasBackref pr.op || pr.hasBackrefs)},prewf={b (pr.pres.all (fun q => wfOp q.op))}," ++
+  -- the fragment of the full-strength theorems (Props/Clean, SearchComplete), their extra hypothesis, and the class
+  -- hypothesis of the case-invariance theorems (Props/C11b; alphabet = everything but U+0130)
+  s!"clean={b (cleanOp pr.op)},nea={b (C08.noEmptyAtoms pr.op)},cicl={b (!pr.caseBlind || C11b.allClsB (C11b.clsClosedOnB (fun c => c != 304)) pr.op)}"
 
 def runApi (pr : Prog) (api : String) (input repl : List Nat) (limit : Nat) : String :=
   match api with
